@@ -42,7 +42,7 @@ ASSUMPTIONS = [
 ]
 REUSE = ['c01', 'c02', 'c03', 'c04', 'c05', 'c06', 'c07', 'c08', 'c10', 'c11', 'c12', 'c13', 'c14', 'c15', 'c16',
          'c17', 'c18', 'c19', 'c20']
-HISTORY_FAMILIES = ['graphs', 'atoms', 'models', 'cif']
+HISTORY_FAMILIES = ['graphs', 'atoms', 'models', 'cif', 'frames']
 PYTEST_DIRS = ['tests/conversion', 'tests/convert_test.py', 'tests/beamline_components_test.py', 'tests/chopper',
                'tests/tof', 'tests/peaks', 'tests/absorption', 'tests/io', 'tests/atoms', 'tests/metadata']
 
@@ -331,7 +331,7 @@ def _sentinel_fn(**kw):
 def mutate(obj, depth=0):
     """Do to a returned object what a caller can do through its public surface. Returns #mutations."""
     n = 0
-    if depth > 3 or obj is None:
+    if depth > 3 or obj is None or isinstance(obj, _Frozen):
         return 0
     if isinstance(obj, sc.Variable):
         try:
@@ -540,12 +540,88 @@ def family_cif():
     return F, view
 
 
-FAMILIES = {'graphs': family_graphs, 'atoms': family_atoms, 'models': family_models, 'cif': family_cif}
+def family_frames():
+    """Frames computed from a frame sequence (lookups by distance, propagation, chopping): every call
+    computes a new frame; what a caller does to it must not reach the sequence or later lookups.
+    (Index access ``seq[i]`` and the frame lists of derived sequences hand out the stored frames by
+    design and are not part of this family.)"""
+    from scippneutron.tof import chopper_cascade as CC
+
+    def m(x):
+        return sc.scalar(float(x), unit='m')
+
+    def chopper(d, t0=0.0):
+        return CC.Chopper(distance=m(d), time_open=sc.array(dims=['cutout'], values=[t0, t0 + 0.02], unit='s'),
+                          time_close=sc.array(dims=['cutout'], values=[t0 + 0.01, t0 + 0.03], unit='s'))
+
+    src = CC.FrameSequence.from_source_pulse(
+        time_min=sc.scalar(0.0, unit='s'), time_max=sc.scalar(0.003, unit='s'),
+        wavelength_min=sc.scalar(0.5, unit='angstrom'), wavelength_max=sc.scalar(12.0, unit='angstrom'))
+    seq = src.chop([chopper(8.0, 0.004), chopper(15.0, 0.01)]).propagate_to(m(30.0))
+    F = {
+        'seq[source distance]': lambda: seq[m(0.0)],
+        'seq[first chopper distance]': lambda: seq[m(8.0)],
+        'seq[second chopper distance]': lambda: seq[m(15.0)],
+        'seq[last distance]': lambda: seq[m(30.0)],
+        'seq[last distance in mm]': lambda: seq[sc.scalar(30000.0, unit='mm')],
+        'seq[between]': lambda: seq[m(11.0)],
+        'seq[beyond]': lambda: seq[m(45.0)],
+        'frame.propagate_to(own distance)': lambda: seq.frames[1].propagate_to(m(8.0)),
+        'frame.propagate_to(further)': lambda: seq.frames[1].propagate_to(m(9.5)),
+        'frame.chop(at own distance)': lambda: seq.frames[2].chop(chopper(15.0, 0.012)),
+        'frame.chop(further)': lambda: seq.frames[2].chop(chopper(20.0, 0.02)),
+        'seq.propagate_to(last distance)[-1]': lambda: seq.propagate_to(m(30.0)).frames[-1],
+        'seq.propagate_to(further)[-1]': lambda: seq.propagate_to(m(40.0)).frames[-1],
+        'seq.chop([at last distance])[-1]': lambda: seq.chop([chopper(30.0, 0.03)]).frames[-1],
+        'frame.bounds()': lambda: seq.frames[2].bounds(),
+        'frame.subbounds()': lambda: seq.frames[2].subbounds(),
+        'seq (stored frames)': lambda: _Frozen(seq),
+    }
+    def rebind(obj, depth=0):
+        """What a caller does to a frame it was given: reassign its fields and edit its lists.  The vertex
+        arrays themselves are left alone: a propagated subframe shares its wavelength array with the
+        subframe it was computed from (Subframe.propagate_by), by design."""
+        n = 0
+        if isinstance(obj, CC.Frame):
+            for sub in obj.subframes[:2]:
+                n += rebind(sub)
+            obj.distance = obj.distance * 2.0
+            if obj.subframes:
+                del obj.subframes[0]
+            obj.subframes.append(CC.Subframe(time=sc.array(dims=['vertex'], values=[0.0, 1.0, 1.0], unit='s'),
+                                             wavelength=sc.array(dims=['vertex'], values=[1.0, 1.0, 2.0],
+                                                                 unit='angstrom')))
+            return n + 3
+        if isinstance(obj, CC.Subframe):
+            obj.time = obj.time * 2.0
+            obj.wavelength = obj.wavelength + sc.scalar(1.0, unit='angstrom')
+            return 2
+        if isinstance(obj, sc.DataGroup):
+            for k in list(obj.keys()):
+                obj[k] = obj[k] * 2.0
+                n += 1
+            return n
+        return 0
+
+    return F, (lambda o: fp(o.obj) if isinstance(o, _Frozen) else fp(o)), rebind
+
+
+class _Frozen:
+    """A view-only entry of a history family: its value is fingerprinted but never handed to mutate()."""
+
+    def __init__(self, obj):
+        self.obj = obj
+
+
+FAMILIES = {'graphs': family_graphs, 'atoms': family_atoms, 'models': family_models, 'cif': family_cif,
+            'frames': family_frames}
 
 
 def history(ctx, shard):
     fam = shard['family']
-    F, view = FAMILIES[fam]()
+    made = FAMILIES[fam]()
+    F, view = made[:2]
+    mutate_result = made[2] if len(made) > 2 else mutate
     names = list(F)
     pristine = {}
     for nme in names:
@@ -582,7 +658,7 @@ def history(ctx, shard):
                     if arg >= len(results):
                         valid = False
                         break
-                    nmut += mutate(results[arg])
+                    nmut += mutate_result(results[arg])
             if not valid:
                 continue
             total += 1
@@ -662,7 +738,7 @@ def plan(tier, seed):
                 shards.append({'kind': 'history', 'family': fam, 'maxlen': 2 if tier == 'quick' else 3,
                                'first': f, 'nfirst': nfirst})
         else:
-            shards.append({'kind': 'history', 'family': fam, 'maxlen': 3 if fam != 'cif' or tier != 'quick' else 2})
+            shards.append({'kind': 'history', 'family': fam, 'maxlen': 3 if fam not in ('cif', 'frames') or tier != 'quick' else 2})
     if tier == 'thorough':
         for pth in PYTEST_DIRS:
             shards.append({'kind': 'pytest', 'paths': [pth]})
